@@ -687,7 +687,7 @@ class C03(Prop):
     assumptions = ["bytes < 256"]
 
     def gen(self, rng, tier):
-        n = 500 if tier == "quick" else 12000
+        n = 500 if tier == "quick" else 60000
         pk = special_valid(rng) + valid_packets(rng, n)
         cases = []
         for i, (b, m) in enumerate(pk):
@@ -765,7 +765,7 @@ class C04(Prop):
 
     def gen(self, rng, tier):
         cases = []
-        pk = special_valid(rng) + valid_packets(rng, 400 if tier == "quick" else 8000)
+        pk = special_valid(rng) + valid_packets(rng, 400 if tier == "quick" else 40000)
         for i, (b, m) in enumerate(pk):
             cases.append(self.one(rng, i, b, "packets"))
         step = 16 if tier == "quick" else 1
@@ -820,7 +820,7 @@ class C05(Prop):
     assumptions = ["bytes < 256", "the reference offset is a record boundary (documented precondition of uncompress_with_previous_offset)"]
 
     def gen(self, rng, tier):
-        n = 300 if tier == "quick" else 6000
+        n = 300 if tier == "quick" else 40000
         pk = special_valid(rng) + valid_packets(rng, n)
         cases = []
         k = 0
@@ -895,10 +895,12 @@ class C13(Prop):
             "authority / additional section of a valid response, then a fresh parse of the object's bytes. Non-trivial: (a) and (b); distinct = "
             "distinct text.")
     strength = ("proved: synthesis is total - for every byte string RR::from_string returns Ok or Err in the model, never Panic "
-                "(C13_synth_total; the grammar model has no partial operation left after the hex-digest repair); every name the builders emit "
-                "is a plain name of at most 253 bytes with labels of at most 62 bytes (C14's theorems). PARTIAL: completeness (every grammar "
-                "text yields the RFC 1035 wire form) and rejection of the damaged classes are decided by the correspondence and the "
-                "independent encoder oracle, not yet by a theorem.")
+                "(C13_synth_total); whatever it returns is a well-formed record: owner name encoded label by label from well-formed text "
+                "labels within 253 bytes, type, class IN, TTL, a data length equal to the length of the data that follows "
+                "(C13_result_well_formed); the data of each builder is characterised: names label by label for NS/CNAME/PTR/MX/SOA, TXT as "
+                "character-strings concatenating to the text, all but the last of exactly 255 bytes, none empty (C13_txt, C13_name_rr, "
+                "C13_mx, C13_soa). PARTIAL: that the grammar accepts exactly the supported texts and passes the right fields to the "
+                "builders is decided by the correspondence and the independent encoder oracle, not by a theorem.")
     assumptions = ["input strings are valid UTF-8 (Rust &str); the model works on their bytes",
                    "chomp1-0.3.4 combinators, hex::decode and Ipv6Addr::from_str are reproduced by hand in Model/Text.v (trusted, exercised by the correspondence)"]
 
@@ -1513,7 +1515,7 @@ class C08(HistProp):
                 "(C08_full_statement) is decided each run by the correspondence plus the fresh-parse oracle on every step of every history.")
 
     def gen(self, rng, tier):
-        n = 500 if tier == "quick" else 12000
+        n = 500 if tier == "quick" else 80000
         cases = []
         for i in range(n):
             first, a, flags = self.base(rng)
@@ -1556,7 +1558,7 @@ class C09(HistProp):
                 "operations to the abstract message operations is decided each run by the correspondence and the abstract-effect oracle.")
 
     def gen(self, rng, tier):
-        n = 500 if tier == "quick" else 12000
+        n = 500 if tier == "quick" else 80000
         cases = []
         for i in range(n):
             first, a, flags = self.base(rng, kind=rng.choice(["parsed"] * 8 + ["query", "empty-q"]))
@@ -1709,7 +1711,7 @@ class C11(HistProp):
                 k += 1
         # the question of an object that an earlier operation already brought to pointer-free form (a deletion elsewhere, a rename,
         # an insertion, in-place decompression), and of synthesised queries
-        for i in range(24 if tier == "quick" else 400):
+        for i in range(24 if tier == "quick" else 6000):
             first, a, flags = self.base(rng, kind=rng.choice(["parsed", "parsed", "parsed", "query"]))
             bld = H.Builder(rng, a, flags)
             pre = rng.choice(["delete", "rename", "insert", "V", "none"])
@@ -1822,7 +1824,7 @@ class C06(Prop):
     assumptions = ["bytes < 256", "input is pointer-free (documented precondition: compress panics on an already compressed name)"]
 
     def gen(self, rng, tier):
-        n = 300 if tier == "quick" else 6000
+        n = 300 if tier == "quick" else 40000
         return [Case("c%d" % i, "CU," + hx(b), {"family": fam, "pkt": b.hex()}) for i, (fam, b) in enumerate(plain_messages(rng, n, tier))]
 
     def oracle(self, case, io):
@@ -1889,7 +1891,7 @@ class C07(Prop):
     assumptions = ["bytes < 256", "source and target are well-formed pointer-free non-root names (property precondition)"]
 
     def gen(self, rng, tier):
-        n = 400 if tier == "quick" else 8000
+        n = 400 if tier == "quick" else 40000
         cases = []
         pk = special_valid(rng) + valid_packets(rng, n)
         for fam, b in plain_messages(rng, 20, "quick"):
@@ -2042,7 +2044,7 @@ class C15(HistProp):
         return None
 
     def gen(self, rng, tier):
-        n = 300 if tier == "quick" else 8000
+        n = 300 if tier == "quick" else 40000
         cases = []
         for i in range(n):
             first, a, flags = self.base(rng, kind="parsed")
@@ -2174,7 +2176,7 @@ class C16(Prop):
             for order in set(itertools.permutations([0, 0, 1, 1, 2, 2])):
                 cases.append(Case("h%d" % k, self.sched(rng, 3, list(order)), {"family": "3x2-exhaustive"}))
                 k += 1
-        for _ in range(60 if tier == "quick" else 1500):
+        for _ in range(60 if tier == "quick" else 12000):
             n = rng.choice([2, 3, 4])
             steps = [rng.randrange(n) for _ in range(rng.randint(6, 14))]
             cases.append(Case("h%d" % k, self.sched(rng, n, steps), {"family": "random-%d" % n}))
@@ -2243,7 +2245,7 @@ class C17(Prop):
     assumptions = ["absence of hidden state is established on a token-level scan of src/**/*.rs (gen/translate.py), not on rustc's view of the program"]
 
     def gen(self, rng, tier):
-        n = 60 if tier == "quick" else 1500
+        n = 60 if tier == "quick" else 8000
         cases = []
         plain = [b for (_, b) in plain_messages(rng, n, "quick")]
         comp = [b for (b, m) in valid_packets(rng, n)]
